@@ -3,6 +3,7 @@ CONSTANTS
   Modes <- BothModes
   Apis <- BothApis
   ContractView = "committed"
+  LedgerOnce = TRUE
   NilOnAbsent <- NoDeviation
 VIEW view
 INVARIANTS TypeOK Total NoNilHandle HandleRefOK Defined NilOnlyByDeviation
